@@ -36,6 +36,7 @@ def spec_bang_words():
 
 def add(U):
     U.extra_files.append((COMP, 'completion'))
+    U.tables_only_files = getattr(U, 'tables_only_files', set()) | {COMP}
     U.hoist_nested_consts = True
     U.prepend(COMP, 'use crate::lexspec::*;\nuse crate::token_kind::TokenKind;')
     U.drop_item(COMP, 'use', r'use syntax::.*', 'R9', 'imports of crates outside the unit')
